@@ -87,6 +87,10 @@ fn main() {
             let s: u64 = args.get(4).and_then(|s| s.parse().ok()).unwrap_or(seed);
             with_prop(&id, &mut |p| p.gen(n, s, Tier::Quick))
         }
+        "lone" => {
+            rv::props::c18::lone_main();
+            true
+        }
         "fuzzcase" => {
             // rv fuzzcase <hist|kernel> <file>: decode a fuzzer input into the JSON case it stands for
             let file = args.get(3).cloned().unwrap_or_else(|| usage());
